@@ -496,6 +496,10 @@ func (f *fileBackedFile) VirtualSetAttributes(ctx context.Context, in *Attribute
 	}
 	defer f.lock.Unlock()
 
+	if f.referenceCount == 0 {
+		return StatusErrStale
+	}
+
 	if hasSizeBytes {
 		if s := f.virtualTruncate(sizeBytes); s != StatusOK {
 			return s
